@@ -313,6 +313,35 @@ impl<E: Engine> HighRateDecoder<E> {
 }
 
 // ======================================================================
+// verification builds
+
+#[cfg(feature = "verif-hooks")]
+impl<E: Engine> HighRateEncoder<E> {
+    /// Working space (read-only).
+    pub fn verif_work(&self) -> &EncoderWork {
+        &self.work
+    }
+
+    /// Crate-private `work_count`.
+    pub fn verif_work_count(original_count: usize, recovery_count: usize) -> usize {
+        Self::work_count(original_count, recovery_count)
+    }
+}
+
+#[cfg(feature = "verif-hooks")]
+impl<E: Engine> HighRateDecoder<E> {
+    /// Working space (read-only).
+    pub fn verif_work(&self) -> &DecoderWork {
+        &self.work
+    }
+
+    /// Crate-private `work_count`.
+    pub fn verif_work_count(original_count: usize, recovery_count: usize) -> usize {
+        Self::work_count(original_count, recovery_count)
+    }
+}
+
+// ======================================================================
 // TESTS
 
 #[cfg(test)]
